@@ -54,3 +54,7 @@ pub mod xdp;
 
 #[cfg(any(test, feature = "testing"))]
 pub mod testing;
+
+#[cfg(all(aws_s2n_quic_verif, test, not(kani)))]
+#[path = "/verif/harness/shim/kani.rs"]
+mod kani;
